@@ -140,6 +140,9 @@ def match_case(draw, ctx, big=False):
             if all(b > a for a, b in zip(out[:-1], out[1:])):
                 xr = out
         case["x_ref"] = xr
+    if mode != "search" and draw(st.booleans()):
+        # the designation is a set: the order in which the caller lists the fixed points must not matter
+        case["order"] = draw(st.permutations(list(range(len(fixed)))))
     yr = draw(ys(len(case["x_ref"])))
     case["y_ref"] = yr["y"]
     case["yrkind"] = yr["kind"]
@@ -195,9 +198,11 @@ def call_kwargs(case):
     if case["mode"] == "search":
         kw["fixed_points_finding_strategy"] = case["strategy"]
     elif case["mode"] == "positions":
-        kw["fixed_points_in_x"] = [case["x"][i] for i in case["fixed"]]
+        order = case.get("order") or range(len(case["fixed"]))
+        kw["fixed_points_in_x"] = [case["x"][case["fixed"][k]] for k in order]
     else:
-        kw["fixed_points_indices_in_x"] = list(case["fixed"])
+        order = case.get("order") or range(len(case["fixed"]))
+        kw["fixed_points_indices_in_x"] = [case["fixed"][k] for k in order]
     return kw
 
 
@@ -216,6 +221,8 @@ def classes(case):
         cls.append("int-dtype-y")
     if case.get("xint"):
         cls.append("int-dtype-x")
+    if case.get("order") and list(case["order"]) != sorted(case["order"]):
+        cls.append("unordered-fixed-points")
     return cls
 
 
